@@ -43,7 +43,9 @@ def run(rep):
     h = ('tf', elem, 0)
     rep.check(not st[5], 'C08.once', 'single-pass', where, 'struct items come from a flattened iteration', ok_detail='plain pass over module.types')
     # ---- filter formula ---------------------------------------------------------------------------------------------------------
-    conds = st[4]
+    conds = []
+    for c in st[4]:
+        conds.extend(c[1] if c[0] == 'and' else [c])
     struct_only = [c for c in conds if only_struct_cond(c, elem)]
     formula = [c for c in conds if c not in struct_only]
     rep.check(len(struct_only) == 1, 'C08.struct-only', 'struct-only', where, f'items are not restricted to TypeInner::Struct by exactly one condition ({[E.show(c, maxdepth=5) for c in conds]})',
@@ -54,28 +56,19 @@ def run(rep):
         atoms = {}
 
         def classify(x):
-            if x[0] == 'any' and x[1][0] == 'star':
-                src = x[1][1]
-                txt = E.show(x[2], maxdepth=14)
-                if src == ('f', modP, 'entry_points'):
-                    if 'result' in txt and 'arguments' not in txt:
-                        atoms.setdefault('A', x)
-                        return False
-                    if 'arguments' in txt:
-                        atoms.setdefault('B', x)
-                        return False
+            k = classify_any(ogp, x, modP, h)
+            if k:
+                atoms.setdefault(k, x)
+                return False
             if x[0] == 'mcall' and x[2] == 'contains' and x[3] == [h]:
                 atoms.setdefault('C', x)
                 return False
         E.walk(pred, classify)
         rep.check(set(atoms) == {'A', 'B', 'C'}, 'C08.filter-formula', 'atoms', where,
-                  f'cannot recognise the three atoms of the selection predicate (found {sorted(atoms)}) in {E.show(pred, maxdepth=6)}', ok_detail='A: result type == h, B: some argument type == h, C: closure contains h')
+                  f'cannot recognise the three atoms of the selection predicate (found {sorted(atoms)}) in {E.show(pred, maxdepth=6)}: A = "some entry point returns exactly this type", '
+                  f'B = "some entry point takes an argument of exactly this type" (classified by evaluating the extracted conditions on model entry points), C = membership in the closure set',
+                  ok_detail='A: result type == h, B: some argument type == h, C: closure contains h')
         if set(atoms) == {'A', 'B', 'C'}:
-            # shapes of A and B
-            a_ok = eq_result(atoms['A'], h)
-            b_ok = eq_argument(atoms['B'], h)
-            rep.check(a_ok, 'C08.filter-formula', 'atom-A', where, f'atom A is not "some entry point returns exactly this type": {E.show(atoms["A"], maxdepth=8)}', ok_detail='any(entry.function.result.ty == h)')
-            rep.check(b_ok, 'C08.filter-formula', 'atom-B', where, f'atom B is not "some entry point takes an argument of exactly this type": {E.show(atoms["B"], maxdepth=8)}', ok_detail='any(any(argument.ty == h))')
             other = []
 
             def find_other(x):
@@ -188,6 +181,39 @@ def run(rep):
     rep.check(ok_seed, 'C08.closure-seed', f'seed:{q}', where, 'the closure is not seeded with the type of every module.global_variables element (unfiltered)', ok_detail='for g in module.global_variables: closure(g.ty)')
 
 
+def classify_any(ogp, term, modP, h):
+    """classify an `any` over module.entry_points by its behaviour on model entry points: 'A' = some entry point's result type is h,
+    'B' = some entry point has an argument of type h, None otherwise (the extracted condition is evaluated, not pattern-matched)"""
+    import engine_skel as K
+    if not (term[0] == 'any' and term[1][0] == 'star' and term[1][1] == ('f', modP, 'entry_points')):
+        return None
+
+    def entry(result_ty, arg_tys):
+        res = None if result_ty is None else ('some', V('naga::FunctionResult', ty=result_ty, binding=None))
+        fn = V('naga::Function', name=('some', 'f'), result=res, arguments=[V('naga::FunctionArgument', name=None, ty=t, binding=None) for t in arg_tys])
+        return V('naga::EntryPoint', name='e', stage=V('naga::ShaderStage::Vertex'), function=fn)
+    H_, O_ = 'H', 'OTHER'
+    worlds = [([], (False, False)), ([entry(None, [])], (False, False)), ([entry(H_, [])], (True, False)), ([entry(O_, [O_])], (False, False)), ([entry(O_, [O_, H_])], (False, True)),
+              ([entry(None, [O_]), entry(H_, [H_])], (True, True)), ([entry(O_, []), entry(None, [H_])], (False, True))]
+    got = []
+    for eps, _ in worlds:
+        def leaf(t, eps=eps):
+            if t == ('f', modP, 'entry_points'):
+                return (eps,)
+            if t == h:
+                return (H_,)
+            return None
+        try:
+            got.append(bool(K.SkelEval(ogp, None, {}, '', None, extra_leaf=leaf).ev(term)))
+        except (Unbound, Diverge):
+            return None
+    if got == [w[1][0] for w in worlds]:
+        return 'A'
+    if got == [w[1][1] for w in worlds]:
+        return 'B'
+    return None
+
+
 def selection_predicate(ogp):
     """(predicate term, {'A','B','C' -> atom term}) of the struct emission filter, or (None, None)"""
     hits = []
@@ -205,20 +231,19 @@ def selection_predicate(ogp):
     modP = st[1][1]
     elem = ('elem', st[2], st[1])
     h = ('tf', elem, 0)
-    formula = [c for c in st[4] if not only_struct_cond(c, elem)]
+    cs = []
+    for c in st[4]:
+        cs.extend(c[1] if c[0] == 'and' else [c])
+    formula = [c for c in cs if not only_struct_cond(c, elem)]
     if len(formula) != 1:
         return None, None
     atoms = {}
 
     def classify(x):
-        if x[0] == 'any' and x[1][0] == 'star' and x[1][1] == ('f', modP, 'entry_points'):
-            txt = E.show(x[2], maxdepth=14)
-            if 'result' in txt and 'arguments' not in txt:
-                atoms.setdefault('A', x)
-                return False
-            if 'arguments' in txt:
-                atoms.setdefault('B', x)
-                return False
+        k = classify_any(ogp, x, modP, h)
+        if k:
+            atoms.setdefault(k, x)
+            return False
         if x[0] == 'mcall' and x[2] == 'contains' and x[3] == [h]:
             atoms.setdefault('C', x)
             return False
